@@ -709,8 +709,8 @@ class Run(object):
         """
         for arg in flow:
             self._el.fill(arg)
-        results = self._el.compute()
-        return results
+        for result in self._el.compute():
+            yield result
 
     def __eq__(self, other):
         if not isinstance(other, Run):
